@@ -417,6 +417,7 @@ func runGRPC(r *ev.Run, id caseID) {
 	kv := pb.NewKVClient(conn)
 	ctx, cancel := context.WithTimeout(context.Background(), 5*time.Minute)
 	defer cancel()
+	nStreams := 0
 	for tb := 0; tb < 3; tb++ {
 		name := fmt.Sprintf("t%d", tb)
 		if _, err := c.CreateTable(name); err != nil {
@@ -455,8 +456,17 @@ func runGRPC(r *ev.Run, id caseID) {
 					r.Violation("grpc-range-mismatch", why+" @ "+w.Request, w)
 					return
 				}
-				st, err := kv.IterateRange(ctx, rr)
+				// every second stream is requested the way a client without a time-out does it: the
+				// server then sees a context that carries no deadline
+				sctx, scancel := ctx, context.CancelFunc(func() {})
+				if nStreams++; nStreams%2 == 0 {
+					sctx, scancel = context.WithCancel(context.Background())
+					w.Request += " (stream requested without a deadline)"
+					r.Count("grpc_streams_without_deadline", 1)
+				}
+				st, err := kv.IterateRange(sctx, rr)
 				if err != nil {
+					scancel()
 					r.Violation("grpc-stream-error", err.Error()+" @ "+w.Request, w)
 					return
 				}
@@ -467,10 +477,31 @@ func runGRPC(r *ev.Run, id caseID) {
 						break
 					}
 					if err != nil {
+						scancel()
 						r.Violation("grpc-stream-error", "Recv: "+err.Error()+" @ "+w.Request, w)
 						return
 					}
 					chunks = append(chunks, &pb.ResponseOp_Range{Kvs: msg.Kvs, More: msg.More, Count: msg.Count})
+				}
+				scancel()
+				// the same read by an in-process caller of the engine (as the replication and backup
+				// code paths call it), with a context that carries no deadline
+				if nStreams%4 == 0 {
+					seq, err := e.IterateRange(context.Background(), rr)
+					if err != nil {
+						r.Violation("engine-stream-error", err.Error()+" @ "+w.Request, w)
+						return
+					}
+					var ech []*pb.ResponseOp_Range
+					seq(func(m *pb.RangeResponse) bool {
+						ech = append(ech, &pb.ResponseOp_Range{Kvs: m.Kvs, More: m.More, Count: m.Count})
+						return true
+					})
+					if why, _ := judgeStream(req, full, ech); why != "" {
+						r.Violation("engine-stream-mismatch", why+" @ Engine.IterateRange(context.Background()) "+w.Request, w)
+						return
+					}
+					r.Count("engine_streams_without_deadline", 1)
 				}
 				why, nm := judgeStream(req, full, chunks)
 				if why != "" {
